@@ -26,6 +26,11 @@ def run(chk):
     behs = L.extract_edges(chk, "3 blocks x <=1 tx", 8000 if thorough else 500, rng, **small)
     sim = L.simulate(chk, "6 blocks x <=2 txs", 3000 if thorough else 200, 14,
                      txs=["T1", "T2", "T3", "T6", "T7"], blocks=6, tpb=2, bad=1, deliver=7)
+    # change paid back to an address that still owns other outputs of the same height (the four
+    # 6000 ELA funding outputs of the producer registrations), connected and disconnected
+    sim2 = L.simulate(chk, "5 blocks with registrations", 2000 if thorough else 150, 12,
+                      txs=["T1", "T2", "R1", "R2", "R3"], blocks=5, tpb=2, bad=0, deliver=6)
     chk.absorb(L.replay(chk, binary, behs + sim, "c14"), "replay on full-stack node")
+    chk.absorb(L.replay(chk, binary, sim2, "c14-reg"), "replay with producer registrations")
     L.selftest(chk, binary, behs + sim)
     return chk.finish(exhaustive=False)
